@@ -22,6 +22,17 @@ def make_cases(rng, tier, n):
                 if rng.random() < 0.4:
                     base["init"].append(("dir", p + b"/side%d" % lvl))
                     base["init"].append(("file", p + b"/side%d/s.txt" % lvl, "g:%d:7" % rng.randrange(1000)))
+        if i % 6 == 1 and darts0:
+            # entries (files and sub-directories) named exactly like the keys of the two manifest schemas, at two depths
+            p0 = darts0[0][0]
+            for nm in (b"contents", b"Contents", b"path", b"Path", b"checksum", b"Checksum", b"is-dir", b"IsDir", b"SkipCache", b"DisableRecursion"):
+                if not any(e[1] == p0 + b"/" + nm for e in base["init"]):
+                    if nm in (b"contents", b"Path", b"IsDir"):
+                        base["init"] += [("dir", p0 + b"/" + nm), ("file", p0 + b"/" + nm + b"/contents", "g:%d:6" % rng.randrange(1000)),
+                                         ("file", p0 + b"/" + nm + b"/Checksum", "g:%d:7" % rng.randrange(1000))]
+                    else:
+                        base["init"].append(("file", p0 + b"/" + nm, "g:%d:%d" % (rng.randrange(1000), rng.choice([0, 5, 300]))))
+            stats["schema_key_names"] = stats.get("schema_key_names", 0) + 1
         files = [e for e in base["init"] if e[0] == "file"]
         dart = [a for a in s1eval.artifacts(base) if "d" in a[1]]
         flow = rng.choice(["checkout", "status", "pushfetch", "recommit", "recommit_edit"])
